@@ -10,8 +10,8 @@ from .model import runs_of
 
 GFLAV = {
     0: dict(name='int-T-2', ids=[0, 1, 2, 3], T0=-2),      # with 4 instants: -2..1 — two negative ids, 0 interior
-    1: dict(name='str-T8', ids=['b', 'a', 'c', 'd'], T0=8),   # 8, 9, 10: the ids change their number of digits
-    2: dict(name='int10-T-3', ids=[12, 10, 11, 13], T0=-3),
+    1: dict(name='str-T8', ids=['ab', 'a', 'b', 'abc'], T0=8),   # 8, 9, 10: ids change their number of digits; 'a' is a prefix of 'ab'
+    2: dict(name='int-prefix-THUGE', ids=[10, 1, 100, 11], T0=2 ** 60),   # str(1) is a prefix of str(10); instants beyond 2**53 (and the small-int cache)
 }
 
 
